@@ -408,6 +408,13 @@ Fixpoint compile_roots (fuel : nat) (e : env) (u : repo_stack) (o : copts) (g : 
   end.
 
 (* ---- perform_compile ---- *)
+(* node.metadata is None, read from the node object (which may have left the index) *)
+Definition unsolved (g : graph) (id : nat) : bool :=
+  match alookup id (heap g) with
+  | Some n => match nmeta n with None => true | Some _ => false end
+  | None => false
+  end.
+
 Definition is_pinned_req (r : req) : bool := has_equality r.
 
 (* pinned_requirements[key] = merge_requirements(pinned_requirements.get(key), req) *)
@@ -438,6 +445,40 @@ Fixpoint add_containers (e : env) (g : graph) (cs : list dist) (acc : list nat) 
   | c :: cs' =>
       '(g', ns) <- add_dist GFUEL e g (dname c) (Some c) None None ;;
       add_containers e g' cs' (fold_left (fun a x => nadd x a) ns acc)
+  end.
+
+(* /repo fix "a walk-back that gives up no longer leaves a required project unsolved": after the loop over the roots,
+   every project reachable from the inputs that is still without a solution is solved again without any downgrade
+   budget (which reports the real conflict) ... *)
+Fixpoint resolve_loop (k fuel : nat) (e : env) (u : repo_stack) (o : copts) (roots : list nat)
+         (retried : list nat) (g : graph) : sres :=
+  match k with
+  | O => SFatal EFuel
+  | S k' =>
+      (* pending = [node for node in sorted(results.visit_nodes(roots)) if node.metadata is None and node not in retried] *)
+      match filter (fun nd => unsolved g nd && negb (nmem nd retried)) (sort_nodes g (visit_nodes g roots)) with
+      | [] => SOk g
+      | nd :: _ =>
+          match compile_roots fuel e u o g nd None 1 resolve_pass_budget [] with
+          | SOk g' => resolve_loop k' fuel e u o roots (nd :: retried) g'
+          | other => other
+          end
+      end
+  end.
+Definition resolve_unsolved (fuel : nat) (e : env) (u : repo_stack) (o : copts) (roots : list nat) (r : sres) : sres :=
+  match r with
+  | SOk g2 => resolve_loop fuel fuel e u o roots [] g2
+  | other => other
+  end.
+(* ... and a result that still lacks a required project is a NoCandidate failure for that project *)
+Definition check_solved (e : env) (roots : list nat) (r : sres) : sres :=
+  match r with
+  | SOk g3 =>
+      match filter (unsolved g3) (sort_nodes g3 (visit_nodes g3 roots)) with
+      | [] => SOk g3
+      | nd :: _ => liftA (build_constraints e g3 nd) (fun spec => SNoCand g3 (safe_name (rname spec)) (rspec spec))
+      end
+  | other => other
   end.
 
 Inductive cres :=
@@ -471,6 +512,7 @@ Definition perform_compile_stack_x (fuel : nat) (e : env) (u : repo_stack) (inpu
              | other => other
              end)
           (sort_nodes g1 nodes) (SOk g1) in
+      let run := check_solved e roots (resolve_unsolved fuel e u o roots run) in
       let add_cons (g : graph) : res graph :=
         if remove_constraints then Rok g else
         match constraints with
